@@ -93,7 +93,7 @@ func genCase(t *rapid.T) Case {
 	}
 	for i := 0; i < nt; i++ {
 		c.Tampers = append(c.Tampers, Tamper{
-			Kind: []string{"flip", "flip", "flip", "swap", "transplant"}[rapid.IntRange(0, 4).Draw(t, "tk")],
+			Kind: []string{"flip", "flip", "flip", "swap", "transplant", "plaintext", "plaintext"}[rapid.IntRange(0, 6).Draw(t, "tk")],
 			Mod:  rapid.IntRange(0, 1000).Draw(t, "tmod"),
 			Off:  []int{0, 2, 4, 10, 16, 500, 985, 999}[rapid.IntRange(0, 7).Draw(t, "toffk")],
 			Mask: byte(1 << uint(rapid.IntRange(0, 7).Draw(t, "tbit"))),
@@ -498,6 +498,38 @@ func runCase(c Case, o *kit.Obs) *kit.Failure {
 			pos := m.Offset + int64(tm.Off)*int64(m.Len-1)/999
 			bad[pos] ^= tm.Mask
 			desc = fmt.Sprintf("bit flipped at byte %d of the %s module of row group %d column %d page %d", pos-m.Offset, m.Kind, m.RG, m.Col, m.PageIdx)
+		case "plaintext":
+			// the encrypted module replaced by its own content in clear (padded to the same length):
+			// an attacker who knows or guesses the content must not be able to strip the authentication
+			j := -1
+			for k := 0; k < len(mods); k++ {
+				x := mods[(tm.Mod+k)%len(mods)]
+				// (page-index modules only: their length comes from the footer; the length prefix of a
+				// page module would be read from the forged bytes and may ask for gigabytes)
+				if (x.Kind == "column-index" || x.Kind == "offset-index") && len(x.Plain) > 0 && len(x.Plain) <= x.Len {
+					j = (tm.Mod + k) % len(mods)
+					break
+				}
+			}
+			if j < 0 {
+				continue
+			}
+			m = mods[j]
+			// exactly the module's length: the thrift struct gets one more (unknown) binary field
+			// holding the padding, in front of its STOP byte
+			forged := append([]byte{}, m.Plain...)
+			if pad := m.Len - len(forged); pad >= 2 && pad < 130 && len(forged) > 0 && forged[len(forged)-1] == 0 {
+				forged = forged[:len(forged)-1]
+				forged = append(forged, 15<<4|8, byte(pad-2))
+				forged = append(forged, make([]byte, pad-2)...)
+				forged = append(forged, 0)
+			}
+			for i := int64(0); i < int64(m.Len); i++ {
+				bad[m.Offset+i] = 0
+			}
+			copy(bad[m.Offset:], forged)
+			desc = fmt.Sprintf("%s module of row group %d column %d page %d replaced by its plaintext", m.Kind, m.RG, m.Col, m.PageIdx)
+			swaps++
 		case "swap":
 			// another module of the same kind and length
 			j := -1
